@@ -238,6 +238,23 @@ def rule_range(ctx):
                     okc = okc and len(d) == 1 and q.lin_eq(q.linear(ctx, g, d[0].value), {'start_height': 1, 'count': 1, '': -1})
                 except q.NotLinear:
                     okc = False
+            # the leaf height is not negative: height itself is validated; start + count - 1 needs count >= 1
+            if not want_h and okc:
+                conds = pr.control_conditions(q.stmt(cc), g.node)
+                pos = False
+                for t, b, _p in conds:
+                    for cj in (pr.conjuncts(t) if b else []):
+                        if isinstance(cj, ast.Name) and cj.id == 'count':
+                            pos = True
+                        vc = q.var_vs_const(cj)
+                        if vc and vc[0] == 'count' and (vc[1], vc[2]) in (('>', 0), ('>=', 1), ('!=', 0)):
+                            pos = True
+                ctx.check(pos, 'C11.RANGE', ctx.key(g, q.stmt(cc), 'leaf height not negative'),
+                          'the proof is requested only when at least one header was returned (start + count - 1 >= start >= 0)',
+                          'the proof can be requested with count == 0: the leaf height is start_height - 1, i.e. -1 for start 0, which the '
+                          'range guard (height <= cp_height) lets through - headers are then read from height -1 and a DB error escapes',
+                          loc=ctx.loc(g, cc))
+                n += 1
             ctx.check(okc, 'C11.RANGE', ctx.key(g, q.stmt(cc), 'proof arguments'),
                       'the proof is requested for (cp_height, height of the last returned header)',
                       f'the proof is requested for the wrong header: {norm(cc)}', loc=ctx.loc(g, cc))
@@ -270,7 +287,46 @@ def run(ctx):
     ctx.rule('C11.TRUNCATE', lambda: rule_truncate(ctx), 2)
     ctx.rule('C11.EXTEND', lambda: rule_extend(ctx), 5)
     ctx.rule('C11.RANGE', lambda: rule_range(ctx), 4)
+    ctx.rule('C11.INITLEN', lambda: rule_init_below_horizon(ctx), 1)
+    c12.run(ctx)
     ctx.rule('C11.CACHE', lambda: c12.rule_cache_commit(ctx, 'C11.CACHE'), 4)
     ctx.rule('C11.CACHES', lambda: rule_cachefill(ctx) + c10.rule_signal(ctx, 'C11.CACHES'), 9)
     ctx.rule('C11.BYHEIGHT', lambda: c10.rule_byheight(ctx, 'C11.BYHEIGHT'), 2)
     ctx.rule('C11.TSCFORWARD', lambda: c12.rule_tscforward(ctx, 'C11.TSCFORWARD'), 5)
+
+
+def rule_init_below_horizon(ctx, rule='C11.INITLEN'):
+    '''MerkleCache.initialize() is not protected by the truncation epoch (it installs length and level across a
+    suspension).  That is sound only because the header cache is initialised to a length no reorganisation can reach:
+    at most height - reorg_limit hashes.'''
+    f = ctx.func('db', 'DB.populate_header_merkle_cache')
+    from .. import dataflow as df
+    calls = [c for c in q.own_calls(f) if q.callee_name(ctx, f, c) == 'self.header_mc.initialize' and len(c.args) == 1]
+    ok, why = False, 'header_mc.initialize(<length>) call not found'
+    if len(calls) == 1:
+        a = calls[0].args[0]
+        if isinstance(a, ast.Name):
+            d = df.last_def_before(f, a.id, calls[0])
+            a = d[1] if d else a
+        why = f'the header cache is initialised to `{norm(a)[:60]}` hashes'
+        cands = [a]
+        if isinstance(a, ast.Call) and norm(a.func) == 'max':
+            cands = [x for x in a.args if not isinstance(x, ast.Constant)]
+            small_const = all(isinstance(x.value, int) and x.value <= 1 for x in a.args if isinstance(x, ast.Constant))
+        else:
+            small_const = True
+        try:
+            ok = small_const and bool(cands)
+            for c_ in cands:
+                lin = q.linear(ctx, f, c_)
+                dlt = q.lin_sub(lin, {'self.state.height': 1, 'self.env.reorg_limit': -1, '': 0})
+                if not (set(k for k, v in dlt.items() if v and k) == set() and dlt.get('', 0) <= 0):
+                    ok = False
+        except q.NotLinear:
+            ok = False
+    ctx.check(ok, rule, ctx.key(f, None, 'initial length below the reorg horizon'),
+              'the header merkle cache is initialised to at most height - reorg_limit hashes (never touched by a truncation)',
+              why + ', which a reorganisation during the (suspending) initialisation can cut into: initialize() then installs the '
+              'full pre-reorg level over the truncated length and header proofs at the boundary fold to a wrong root',
+              loc=ctx.loc(f, f.node))
+    return 1
